@@ -1,5 +1,4 @@
-//! C10 counterexample search (run only after the Verus unit `xfr` reported a failed obligation, to find a concrete
-//! failing stream for the replay file): every response stream of at most 6 records over {SOA serial 1, SOA serial 2,
+//! C10 native search (a bounded exploration of the real crate, run on every check; it also supplies the concrete input when a Verus obligation of the property fails): every response stream of at most 6 records over {SOA serial 1, SOA serial 2,
 //! SOA serial 3, A .1, A .2}, as AXFR and as IXFR, in one message and split into two messages, is fed to the real
 //! XfrResponseInterpreter and the updates it emits are compared with the RFC 5936 / RFC 1995 stream automaton that
 //! the unit's contract states (xfr_step). A panic or a differing update sequence is the failing stream.
